@@ -158,6 +158,10 @@ def forEach {α} : List α → (α → M Unit) → M Unit
   | [], _ => pure ()
   | x :: xs, f => bind' (f x) fun _ => forEach xs f
 
+def mapM' {α β} : List α → (α → M β) → M (List β)
+  | [], _ => pure []
+  | x :: xs, f => bind' (f x) fun y => bind' (mapM' xs f) fun ys => pure (y :: ys)
+
 def foldM' {α β} : List α → β → (β → α → M β) → M β
   | [], b, _ => pure b
   | x :: xs, b, f => bind' (f b x) fun b' => foldM' xs b' f
